@@ -1,4 +1,5 @@
 import JugModel.Props.C12
+import JugModel.Props.WorkerBridge
 #print axioms Jug.C12.stop_leaves_no_lock
 #print axioms Jug.C12.stop_always_enabled
 #print axioms Jug.C12.stop_changes_nothing_shared
@@ -6,3 +7,5 @@ import JugModel.Props.C12
 #print axioms Jug.C12.cannot_exit_holding
 #print axioms Jug.C12.interrupted_task_has_no_result
 #print axioms Jug.C12.state_after_stop_is_regular
+#print axioms Jug.WorkerBridge.worker_conforms
+#print axioms Jug.C12.stop_mechanisms_use_known_hooks
